@@ -4,6 +4,7 @@ import RzmqModel.Props.C15
 #print axioms Rzmq.C15.linger_bounded
 #print axioms Rzmq.C15.linger_infinite_waits
 #print axioms Rzmq.C15.linger_infinite_never_gives_up
+#print axioms Rzmq.C15.linger_ends_once_drained
 #print axioms Rzmq.C15.close_never_truncates
 #print axioms Rzmq.C15.linger_delivers_all_partial
 #print axioms Rzmq.C15.sessions_as_they_are
